@@ -89,12 +89,18 @@ class Rendered(object):
                         emit(ind + "  Given " + _own_text(s["o"], k + 1))
                 else:
                     emit("")
-                    tagline(list(it["tags"]) + (["x<c1>"] if it.get("ptag") else []), ind)
+                    tagline(list(it["tags"]) + (["x<c1>"] if it.get("ptag") else []) + (["t<row.index>"] if it.get("rtag") else []), ind)
                     e = self._take("outline")
                     reg(e, emit(ind + ("Scenario Outline: O" if self.prog.get("dupnames") else "Scenario Outline: O%d" % e["id"])))
                     nst = len(it["blocks"][0]["rows"][0])
                     for k in range(nst):
-                        emit(ind + "  Given <c%d>" % (k + 1))
+                        # prog["literal_steps"]: a step whose text is the same in every row is written literally in the
+                        # template (no placeholder: the builder may treat such a step differently), the column stays
+                        texts = {_own_text(row[k]["o"], k + 1) for b in it["blocks"] for row in b["rows"]}
+                        if self.prog.get("literal_steps") and len(texts) == 1:
+                            emit(ind + "  Given " + texts.pop())
+                        else:
+                            emit(ind + "  Given <c%d>" % (k + 1))
                     extra = []      # columns for parametrized background steps
                     if pbg:
                         extra = [("b%d" % (k + 1), "%d" % (k + 1)) for k in range(len(f.get("bg") or []))] + \
